@@ -92,6 +92,23 @@ struct World {
     seed: [u8; 16],
     cut_sel: usize,
     restarts: usize,
+    /// (key id, value id, extra payload bytes): the one large value of this run
+    big: Option<(usize, usize, usize)>,
+    /// round-robin over the concretisations of a range setting
+    rv_sel: usize,
+    /// NetworkAddress of every model key / filler key (to map record_addresses() back to ids)
+    key_addrs: Vec<ant_protocol::NetworkAddress>,
+    filler_addrs: std::collections::HashSet<ant_protocol::NetworkAddress>,
+}
+
+/// Record kind of value v of key k: both values of a key differ in kind, and all four storable kinds occur.
+fn kind_of(k: usize, v: usize) -> RecordKind {
+    match (k + v) % 4 {
+        0 => RecordKind::Chunk,
+        1 => RecordKind::Scratchpad,
+        2 => RecordKind::Transaction,
+        _ => RecordKind::Register,
+    }
 }
 
 /// Which prefix of the ciphertext survives a torn write (selected per run).
@@ -159,7 +176,10 @@ impl World {
         let mut w = World {
             cfg, me, dir, store, node, _net: net, kp, cmd_rx, cmd_tx, ev_tx, _ev_rx: ev_rx, keys, dists, filler_keys,
             values: HashMap::new(), parked: vec![], notes: vec![], pending_w: BTreeMap::new(), paid: 0, seed, cut_sel: 0, restarts: 0,
+            big: None, rv_sel: 0, key_addrs: vec![], filler_addrs: Default::default(),
         };
+        w.key_addrs = w.keys.iter().map(ant_protocol::NetworkAddress::from_record_key).collect();
+        w.filler_addrs = w.filler_keys.iter().map(ant_protocol::NetworkAddress::from_record_key).collect();
         w.settle_constructor_flush(gates).await;
         if w.cfg.filler > 0 {
             w.load_filler(gates).await;
@@ -219,16 +239,44 @@ impl World {
         if let Some(b) = self.values.get(&(k, v)) {
             return b.clone();
         }
-        // a real record: header of a chunk (odd value ids) or scratchpad (even), then payload
-        let kind = if v % 2 == 1 { RecordKind::Chunk } else { RecordKind::Scratchpad };
-        let mut bytes = RecordHeader { kind }.try_serialize().expect("header").to_vec();
+        // a real record: header of a chunk / scratchpad / transaction / register, then payload
+        let mut bytes = RecordHeader { kind: kind_of(k, v) }.try_serialize().expect("header").to_vec();
         bytes.extend_from_slice(format!("payload key {k} value {v} ").as_bytes());
         bytes.extend(std::iter::repeat((k * 16 + v) as u8).take(40 + 7 * v));
+        if let Some((bk, bv, extra)) = self.big {
+            if bk == k && bv == v {
+                // magnitude: one value of a few MB per run (non-constant content)
+                bytes.extend((0..extra).map(|i| (i as u32).wrapping_mul(2_654_435_761).to_be_bytes()[0]));
+            }
+        }
         self.values.insert((k, v), bytes.clone());
         bytes
     }
+    /// the type the node's PutLocalRecord handler derives from the record header (cmd.rs)
     fn type_of(&mut self, k: usize, v: usize) -> RecordType {
-        if v % 2 == 1 { RecordType::Chunk } else { RecordType::NonChunk(XorName::from_content(&self.value_bytes(k, v))) }
+        match kind_of(k, v) {
+            RecordKind::Chunk => RecordType::Chunk,
+            RecordKind::Scratchpad => RecordType::Scratchpad,
+            _ => RecordType::NonChunk(XorName::from_content(&self.value_bytes(k, v))),
+        }
+    }
+    /// concrete range for the abstract setting rg ("distance of key rg"; nk + 1 = beyond every key).
+    /// rv 0: exactly the distance of key rg (the key sits ON the bound); rv 1: strictly between key rg-1 and key rg
+    /// (no key on the bound); for rg = nk + 1: rv 0 just above the farthest key, rv 1 the largest distance there is
+    fn concrete_range(&self, rg: usize, rv: usize) -> U256 {
+        let d = |i: usize| U256::from_be_bytes(self.dists[i]);
+        let one = U256::from(1u8);
+        if rg > self.cfg.nk {
+            if rv == 0 { d(self.cfg.nk - 1) + one } else { U256::MAX }
+        } else if rv == 0 {
+            d(rg - 1)
+        } else if rg == 1 {
+            d(0) - one
+        } else {
+            let (a, b) = (d(rg - 2), d(rg - 1));
+            let mid = a + (b - a) / U256::from(2u8);
+            if mid > a { mid } else { b }
+        }
     }
     fn key_id(&self, key: &RecordKey) -> usize {
         self.keys.iter().position(|x| x == key).map(|i| i + 1).unwrap_or(0)
@@ -352,7 +400,69 @@ impl World {
                 keys.iter().map(|k| st.get(k).map(|r| r.value.clone())).collect()
             }
         };
+        // what the store LISTS: record_addresses() (node: GetAllLocalRecordAddresses) and contains() (node: RecordStoreHasKey)
+        #[allow(clippy::mutable_key_type)]
+        let listing: HashMap<ant_protocol::NetworkAddress, RecordType> = if let Some(d) = self.node.as_mut() {
+            let (tx, mut rx) = tokio::sync::oneshot::channel();
+            let _ = d.verif_handle_local_cmd(LocalSwarmCmd::GetAllLocalRecordAddresses { sender: tx });
+            rx.try_recv().unwrap_or_default()
+        } else {
+            vh::store_record_addresses(self.st())
+        };
+        let has: Vec<usize> = {
+            let keys = self.keys.clone();
+            let mut out = vec![];
+            for (i, k) in keys.iter().enumerate() {
+                let yes = if let Some(d) = self.node.as_mut() {
+                    let (tx, mut rx) = tokio::sync::oneshot::channel();
+                    let _ = d.verif_handle_local_cmd(LocalSwarmCmd::RecordStoreHasKey { key: k.clone(), sender: tx });
+                    rx.try_recv().unwrap_or(false)
+                } else {
+                    vh::store_contains(self.st(), k)
+                };
+                if yes { out.push(i + 1); }
+            }
+            out
+        };
+        let mut addrs: BTreeSet<usize> = BTreeSet::new();
+        let mut f_addrs = 0usize;
+        for a in listing.keys() {
+            match self.key_addrs.iter().position(|x| x == a) {
+                Some(i) => { addrs.insert(i + 1); }
+                None => if self.filler_addrs.contains(a) { f_addrs += 1; } else { addrs.insert(999); },
+            }
+        }
+        // per key: the type class listed, the kind of the bytes served, and whether a listed content hash is that of the bytes served
+        let mut ty: Vec<&'static str> = vec![];
+        let mut rk: Vec<&'static str> = vec![];
+        let mut hm: Vec<u8> = vec![];
+        for i in 0..self.cfg.nk {
+            let served = reads[i].as_ref();
+            rk.push(match served {
+                None => "-",
+                Some(b) => match RecordHeader::from_record(&Record { key: self.keys[i].clone(), value: b.clone(), publisher: None, expires: None }) {
+                    Ok(h) => match h.kind {
+                        RecordKind::Chunk => "C",
+                        RecordKind::Scratchpad => "S",
+                        RecordKind::Transaction => "T",
+                        RecordKind::Register => "R",
+                        _ => "?",
+                    },
+                    Err(_) => "?",
+                },
+            });
+            match listing.get(&self.key_addrs[i]) {
+                None => { ty.push("-"); hm.push(1); }
+                Some(RecordType::Chunk) => { ty.push("C"); hm.push(1); }
+                Some(RecordType::Scratchpad) => { ty.push("S"); hm.push(1); }
+                Some(RecordType::NonChunk(h)) => {
+                    ty.push("N");
+                    hm.push(match served { Some(b) if XorName::from_content(b) == *h => 1, _ => 0 });
+                }
+            }
+        }
         let (idx, f_idx) = self.filler_in(idx_keys.into_iter());
+        if f_addrs != f_idx { addrs.insert(998); }   // the listing and the index disagree about the padding records
         let (byd, f_byd) = self.filler_in(byd_keys.into_iter());
         let (cache, _) = self.filler_in(cache_keys.into_iter());
         // a filler record is the farthest one only while no model key is held (then the model's view is "none")
@@ -361,12 +471,14 @@ impl World {
         let rb: Vec<i64> = reads.iter().enumerate().map(|(i, r)| match r { Some(v) => self.value_id(i + 1, v), None => 0 }).collect();
         let tasks: Vec<Value> = self.parked.iter().map(|p| json!({"kind": p.id.kind, "k": p.id.k, "v": p.id.v})).collect();
         let notes: Vec<Value> = self.notes.iter().map(|n| json!({"kind": n.kind, "k": n.k, "v": n.v})).collect();
+        // abstract range: "distance of key r" = one more than the number of model keys strictly inside the range
         let range = match self.st().get_responsible_distance_range() {
             None => 0,
-            Some(r) => self.dists.iter().position(|d| U256::from_be_bytes(*d) == r).map(|i| i + 1).unwrap_or(99),
+            Some(r) => 1 + self.dists.iter().filter(|d| U256::from_be_bytes(**d) < r).count(),
         };
         json!({"idx": idx, "byDist": byd, "far": far, "cache": cache, "files": files, "rb": rb, "tasks": tasks, "notes": notes,
-               "range": range, "pay": self.st().verif_received_payment_count(), "filler_idx": f_idx, "filler_byDist": f_byd})
+               "range": range, "pay": self.st().verif_received_payment_count(), "filler_idx": f_idx, "filler_byDist": f_byd,
+               "has": has, "addrs": addrs, "filler_addrs": f_addrs, "ty": ty, "rk": rk, "hm": hm})
     }
 }
 
@@ -462,12 +574,10 @@ async fn step(w: &mut World, gates: &mut mpsc::UnboundedReceiver<GateEvent>, t: 
                             None => LocalSwarmCmd::RemoveFailedLocalRecord { key: note.key },
                         };
                         if vtrace::guarded(|| d.verif_handle_local_cmd(cmd)).is_err() { res = json!("Panic"); }
-                    } else {
-                        match note.ty {
-                            Some(ty) => vh::store_mark_as_stored(w.st(), note.key, ty),
-                            None => w.st().remove(&note.key),
-                        }
-                    }
+                    } else if vtrace::guarded(|| match note.ty {
+                        Some(ty) => vh::store_mark_as_stored(w.st(), note.key, ty),
+                        None => w.st().remove(&note.key),
+                    }).is_err() { res = json!("Panic"); }
                     w.pump(gates).await;
                 }
                 None => { res = json!("NoSuchNote"); extra = json!({"n": n}); }
@@ -476,19 +586,22 @@ async fn step(w: &mut World, gates: &mut mpsc::UnboundedReceiver<GateEvent>, t: 
         "Get" => {
             let k = uz(&s["k"]);
             let key = w.keys[k - 1].clone();
-            let got = if let Some(d) = w.node.as_mut() {
+            let got = vtrace::guarded(|| if let Some(d) = w.node.as_mut() {
                 let (tx, mut rx) = tokio::sync::oneshot::channel();
                 let _ = d.verif_handle_local_cmd(LocalSwarmCmd::GetLocalRecord { key, sender: tx });
                 rx.try_recv().ok().flatten()
             } else {
                 w.st().get(&key).map(|r| r.into_owned())
-            };
-            out = match got { Some(r) => json!(w.value_id(k, &r.value)), None => json!(0) };
+            });
+            out = match got { Ok(Some(r)) => json!(w.value_id(k, &r.value)), Ok(None) => json!(0), Err(_) => { res = json!("Panic"); json!(0) } };
         }
         "SetRange" => {
             let r = uz(&s["rg"]);
-            let range = U256::from_be_bytes(w.dists[r - 1]);
-            vh::store_set_responsible_distance_range(w.st(), range);
+            // the concretisation is prescribed (random runs) or taken round-robin (TLC behaviours)
+            let rv = match s.get("rv").and_then(|x| x.as_u64()) { Some(x) => x as usize % 2, None => { w.rv_sel += 1; w.rv_sel % 2 } };
+            let range = w.concrete_range(r, rv);
+            if vtrace::guarded(|| vh::store_set_responsible_distance_range(w.st(), range)).is_err() { res = json!("Panic"); }
+            extra = json!({"rv": rv});
         }
         "Cleanup" => {
             if let Some(d) = w.node.as_mut() {
@@ -498,22 +611,32 @@ async fn step(w: &mut World, gates: &mut mpsc::UnboundedReceiver<GateEvent>, t: 
         }
         "PaymentReceived" => {
             w.paid += 1;
-            if let Some(d) = w.node.as_mut() {
+            if vtrace::guarded(|| if let Some(d) = w.node.as_mut() {
                 let _ = d.verif_handle_local_cmd(LocalSwarmCmd::PaymentReceived);
             } else {
                 vh::store_payment_received(w.st());
-            }
+            }).is_err() { res = json!("Panic"); }
             w.pump(gates).await;
         }
         "Quote" => {
-            let key = w.keys[0].clone();
-            let qm = if let Some(d) = w.node.as_mut() {
+            // the quote is asked for a model key (prescribed, or key 1): the answer says whether that key is already stored
+            let qk = uz(&s["k"]).clamp(1, w.cfg.nk);
+            let key = w.keys[qk - 1].clone();
+            let answer = vtrace::guarded(|| if let Some(d) = w.node.as_mut() {
                 let (tx, mut rx) = tokio::sync::oneshot::channel();
                 let _ = d.verif_handle_local_cmd(LocalSwarmCmd::GetLocalQuotingMetrics { key, sender: tx });
-                rx.try_recv().expect("quoting metrics answer").0
+                rx.try_recv().expect("quoting metrics answer")
             } else {
-                vh::store_quoting_metrics(w.st(), &key, None).0
+                vh::store_quoting_metrics(w.st(), &key, None)
+            });
+            let (qm, stored) = match answer {
+                Ok(a) => a,
+                Err(_) => {
+                    res = json!("Panic");
+                    (ant_evm::QuotingMetrics { close_records_stored: 1_000_000, max_records: 0, received_payment_count: 1_000_000, live_time: 0, network_density: None, network_size: None }, false)
+                }
             };
+            extra = json!({"k": qk});
             // node mode: the figures the node SIGNS into a quote -- the real GetStoreQuote query handler (ant-node
             // handle_query -> get_local_quoting_metrics -> create_quote_for_storecost) for an address not held
             let mut qm = qm;
@@ -561,7 +684,7 @@ async fn step(w: &mut World, gates: &mut mpsc::UnboundedReceiver<GateEvent>, t: 
             }
             // node mode: the store has the shipped capacity (16384), which the model calls MaxRecords
             let max = if w.node.is_some() { if qm.max_records == 16 * 1024 { w.cfg.max_records as i64 } else { qm.max_records as i64 } } else { qm.max_records as i64 - w.cfg.filler as i64 };
-            out = json!({"close": qm.close_records_stored as i64 - w.cfg.filler as i64, "max": max, "pay": qm.received_payment_count});
+            out = json!({"close": qm.close_records_stored as i64 - w.cfg.filler as i64, "max": max, "pay": qm.received_payment_count, "stored": stored});
         }
         "Restart" => {
             // crash now: parked bodies never run, undelivered notes are lost. If tk != 0 the write of tk that
@@ -659,10 +782,11 @@ fn random_step(w: &World, rng: &mut StdRng, nv: usize) -> Value {
                 return json!({"ev":"HandleNote","n":{"kind":n.kind,"k":n.k,"v":n.v}});
             }
             85..=88 => return json!({"ev":"Get","k":rng.gen_range(1..=w.cfg.nk)}),
-            89..=91 => return json!({"ev":"SetRange","rg":rng.gen_range(1..=w.cfg.nk)}),
+            // any key's distance (the key ON the bound, or the bound strictly between two keys), or beyond every key; set again at will
+            89..=91 => return json!({"ev":"SetRange","rg":rng.gen_range(1..=w.cfg.nk + 1),"rv":rng.gen_range(0..2)}),
             92..=94 => return json!({"ev":"Cleanup"}),
             95..=96 => return json!({"ev":"PaymentReceived"}),
-            _ => return json!({"ev":"Quote"}),
+            _ => return json!({"ev":"Quote","k":rng.gen_range(1..=w.cfg.nk)}),
         }
     }
 }
@@ -675,6 +799,23 @@ fn earliest_same_file(w: &World, s: &Value) -> Value {
     let file_is_metrics = kind == "F";
     let p = w.parked.iter().find(|p| if file_is_metrics { p.id.kind == "F" } else { p.id.kind != "F" && p.id.k == k }).expect("parked");
     json!({"ev": if s["ev"] == "FailTask" && p.id.kind == "W" { "FailTask" } else { "RunTask" },"t":{"kind":p.id.kind,"k":p.id.k,"v":p.id.v}})
+}
+
+/// settle: run every parked body (spawn order), deliver every note
+async fn run_all(w: &mut World, gates: &mut mpsc::UnboundedReceiver<GateEvent>, t: &mut Trace, src: &str) {
+    loop {
+        if !w.parked.is_empty() {
+            let p = &w.parked[0];
+            let s = json!({"ev":"RunTask","t":{"kind":p.id.kind,"k":p.id.k,"v":p.id.v}});
+            step(w, gates, t, &s, src).await;
+        } else if !w.notes.is_empty() {
+            let n = &w.notes[0];
+            let s = json!({"ev":"HandleNote","n":{"kind":n.kind,"k":n.k,"v":n.v}});
+            step(w, gates, t, &s, src).await;
+        } else {
+            break;
+        }
+    }
 }
 
 async fn run() {
@@ -720,7 +861,12 @@ async fn run() {
         let mut rng = StdRng::seed_from_u64(seed.wrapping_mul(7_919).wrapping_add(i as u64));
         let dir = work.join(format!("run-{run_no}"));
         let mut w = World::new(&mut rng, dir.clone(), Cfg { nk, max_records, cache_size, filler: 0 }, &mut gates).await;
-        t.emit(json!({"ev":"Reset","run":run_no,"src":"random","nk":nk,"max":max_records,"cache":cache_size,"threshold":99}));
+        // magnitude: in every fourth run one value is 1-4 MB large
+        if i % 4 == 1 {
+            w.big = Some((rng.gen_range(1..=nk), rng.gen_range(1..=nv), rng.gen_range(1usize << 20..4usize << 20)));
+        }
+        t.emit(json!({"ev":"Reset","run":run_no,"src":"random","nk":nk,"max":max_records,"cache":cache_size,"threshold":99,
+                      "big": w.big.map(|b| json!([b.0, b.1, b.2])).unwrap_or(json!(0))}));
         w.cut_sel = (run_no as usize + seed as usize) % cut_mod;
         let crash_at = if rng.gen_range(0..100) < crash_pct { rng.gen_range(steps / 3..steps) } else { usize::MAX };
         for n in 0..steps {
@@ -765,17 +911,50 @@ async fn run() {
         keys.shuffle(&mut rng);
         let n_keys = rng.gen_range(1..=4);
         prefill(&mut w, &mut gates, &mut t, &keys[..n_keys], "padded").await;
+        if rng.gen_bool(0.5) {
+            // a payment whose flush has run: the count must survive the restart below
+            step(&mut w, &mut gates, &mut t, &json!({"ev":"PaymentReceived"}), "padded").await;
+            run_all(&mut w, &mut gates, &mut t, "padded").await;
+        }
         if rng.gen_bool(0.85) {
-            step(&mut w, &mut gates, &mut t, &json!({"ev":"SetRange","rg":rng.gen_range(1..=4)}), "padded").await;
+            if rng.gen_bool(0.4) {
+                // the range is set, then set again
+                step(&mut w, &mut gates, &mut t, &json!({"ev":"SetRange","rg":rng.gen_range(1..=5),"rv":rng.gen_range(0..2)}), "padded").await;
+            }
+            step(&mut w, &mut gates, &mut t, &json!({"ev":"SetRange","rg":rng.gen_range(1..=5),"rv":rng.gen_range(0..2)}), "padded").await;
         }
-        step(&mut w, &mut gates, &mut t, &json!({"ev":"Quote"}), "padded").await;
+        step(&mut w, &mut gates, &mut t, &json!({"ev":"Quote","k":rng.gen_range(1..=4)}), "padded").await;
         step(&mut w, &mut gates, &mut t, &json!({"ev":"Cleanup"}), "padded").await;
-        while !w.parked.is_empty() {
-            let p = &w.parked[0];
-            let s = json!({"ev":"RunTask","t":{"kind":p.id.kind,"k":p.id.k,"v":p.id.v}});
-            step(&mut w, &mut gates, &mut t, &s, "padded").await;
+        // what follows the clean-up: (0) its deletes run; (1) its deletes run, then the node restarts, gets a range again and
+        // cleans up again; (2) only the first delete runs before the node stops; (3) a put arrives before the deletes run
+        let shape = (i / 4 + i) % 4;
+        match shape {
+            0 => run_all(&mut w, &mut gates, &mut t, "padded").await,
+            1 => {
+                run_all(&mut w, &mut gates, &mut t, "padded").await;
+                step(&mut w, &mut gates, &mut t, &json!({"ev":"Restart","k":0}), "padded").await;
+                for k in 1..=4 { step(&mut w, &mut gates, &mut t, &json!({"ev":"Get","k":k}), "padded").await; }
+                step(&mut w, &mut gates, &mut t, &json!({"ev":"Quote","k":rng.gen_range(1..=4)}), "padded").await;
+                step(&mut w, &mut gates, &mut t, &json!({"ev":"SetRange","rg":rng.gen_range(1..=5),"rv":rng.gen_range(0..2)}), "padded").await;
+                step(&mut w, &mut gates, &mut t, &json!({"ev":"Cleanup"}), "padded").await;
+                run_all(&mut w, &mut gates, &mut t, "padded").await;
+            }
+            2 => {
+                if !w.parked.is_empty() {
+                    let p = &w.parked[0];
+                    let s = json!({"ev":"RunTask","t":{"kind":p.id.kind,"k":p.id.k,"v":p.id.v}});
+                    step(&mut w, &mut gates, &mut t, &s, "padded").await;
+                }
+                step(&mut w, &mut gates, &mut t, &json!({"ev":"Restart","k":0}), "padded").await;
+            }
+            _ => {
+                let k = rng.gen_range(1..=4);
+                step(&mut w, &mut gates, &mut t, &json!({"ev":"PutVerified","k":k,"v":2}), "padded").await;
+                run_all(&mut w, &mut gates, &mut t, "padded").await;
+            }
         }
-        step(&mut w, &mut gates, &mut t, &json!({"ev":"Quote"}), "padded").await;
+        for k in 1..=4 { step(&mut w, &mut gates, &mut t, &json!({"ev":"Get","k":k}), "padded").await; }
+        step(&mut w, &mut gates, &mut t, &json!({"ev":"Quote","k":rng.gen_range(1..=4)}), "padded").await;
         drop(w);
         let _ = std::fs::remove_dir_all(&dir);
     }
